@@ -9,6 +9,9 @@ H1  schedules: caller = enter; update^u; exit -- all interleavings with the time
       A  a callback is running while the caller executes exit()        (key .../cancel-rearm-race)
       B  no such overlap                                               (key .../concurrent-update-orphan)
     for ProgressBar; ProgressSilent / ProgressSimple are lowered the same way (no timer events).
+H1f calls without protocol meaning inside the progress methods (print, format, write, flush, ...) may
+    raise: caller = enter(); try: update()^u finally: exit(); assertion after the exception has left.
+    Key .../H1f/<type>/output-failure-leaves-timer.
 H2  fault points: every API function that creates a progress object, straight-line program with a
     symbolic fault index over all call expressions (loops unrolled twice), exception edges of
     `with` / `try`; composed with the timer model (timers do not fire in H2: interleavings are H1's).
@@ -37,8 +40,10 @@ PROP = "C19"
 ASSUMPTIONS = [
     "threading.Timer is modelled by its documented contract (start/cancel/fire/run-target-in-own-thread); "
     "threading.Lock/RLock by mutual exclusion; CPython executes attribute loads/stores and calls atomically (GIL)",
-    "formatting / printing / clock opcodes have no effect on timers or locks (they are sliced away: only instructions "
-    "that can influence a Timer or lock operation are kept)",
+    "formatting / printing / clock code has no effect on timers or locks other than by raising: H1 and H2 treat these calls as "
+    "no-ops (sliced away: only instructions that can influence a Timer or lock operation are kept); H1f lets every such call "
+    "expression of the progress methods raise at every execution (caller shaped like `with progress(..)`: exit() runs while the "
+    "exception propagates)",
     "H1: at most T timer objects are created and at most B scheduler steps are taken (bounds in each case); "
     "the caller calls update() u times",
     "H2: each loop of an API function runs at most twice; the injected failure is an Exception subclass raised by a "
@@ -149,6 +154,17 @@ class MutNoFlag(RefBar):
         self._print_status()
 
 
+class MutPrintBeforeClose(RefBar):
+    """broken: exit() prints the status inside the lock BEFORE closing and cancelling: a failing write skips the cancel"""
+
+    def exit(self):
+        with self._lock:
+            self._print_status()
+            self._closed = True
+            self._timer.cancel()
+
+
+SELFTESTS_F = [("faults-ref-lock-flag", "RefBar", "unsat"), ("faults-mutant-print-before-close", "MutPrintBeforeClose", "sat")]
 SELFTESTS = [("ref-lock-flag", "RefBar", "unsat"), ("ref-rlock-event", "RefBarEvent", "unsat"), ("mutant-no-flag", "MutNoFlag", "sat")]
 
 
@@ -163,10 +179,12 @@ def _repo_rel(fn):
 # lowering of a progress class (bytecode primary, AST cross-check)
 # ---------------------------------------------------------------------------------------
 class Lowered:
-    def __init__(self, util, clsname):
+    def __init__(self, util, clsname, faults=False):
         self.util = util
         self.cls = getattr(util, clsname)
         self.clsname = clsname
+        self.faults = faults          # keep the fault sites (calls that may raise) of the methods?
+        self.full = {}
         self.ci = thx.ClassInfo(self.cls)
         self.cache = {}
         self.functions = []
@@ -184,8 +202,12 @@ class Lowered:
                                      % (self.cls.__name__, name, len(tb), len(ta), len(tb - ta), len(ta - tb)))
             self.ntraces += len(tb)
             self.functions.append(_repo_rel(fn))
-            self.cache[name] = mb
+            self.full[name] = mb
+            self.cache[name] = mb if self.faults else thx.strip_faults(mb)
         return self.cache[name]
+
+    def codes(self):
+        return {n: self.ci.function(n).__code__ for n in self.full}
 
     def programs(self, top):
         """link caller + every callback target reachable, slice jointly, compact"""
@@ -203,6 +225,9 @@ class Lowered:
         attrs = thx.slice_programs(progs)
         main = thx.compact(main)
         cbs = {n: thx.compact(cbs[n]) for n in names}
+        if self.faults:
+            main = thx.merge_faults(main)
+            cbs = {n: thx.merge_faults(cbs[n]) for n in names}
         finit = {a: self.ci.init.get(a, thx.OTHER) for a in attrs}
         return main, cbs, finit, sorted(attrs)
 
@@ -312,13 +337,21 @@ def run_h1(job):
     res = _new_result(job["id"], {})
     t0 = time.time()
     try:
+        faults = job.get("faults")
+        firing = job.get("firing", True)
         if job["kind"] == "S":
             util = sys.modules[__name__]
-            low = Lowered(util, job["cls"])
+            low = Lowered(util, job["cls"], bool(faults))
         else:
             import oqupy.util as util
-            low = Lowered(util, PTYPES[ptype])
+            low = Lowered(util, PTYPES[ptype], bool(faults))
         top = thx.toplevel_calls([("enter", ())] + [("update", (thx.OTHER,))] * u + [("exit", ())])
+        if faults:
+            # the caller of `with progress(..) as p:` / try..finally:  enter(); try: update()^u finally: exit()
+            h = u + 3
+            code = [thx.Ins("call", "enter", ())] + [thx.Ins("call", "update", (thx.OTHER,), err=h) for _ in range(u)] + \
+                   [thx.Ins("call", "exit", ()), thx.Ins("ret"), thx.Ins("call", "exit", ()), thx.Ins("raise")]
+            top = thx.MethodIR("<guarded caller>", [], {}, code)
         main, cbs, finit, attrs = low.programs(top)
         for nm in ("__enter__", "__exit__", "_print_status"):
             if low.ci.is_method(nm):
@@ -333,6 +366,9 @@ def run_h1(job):
             T, Bcap = max(T, 4), max(Bcap, 40)
         complete = thx.longest_path(main, 10 ** 6) + sum([T * (1 + max([thx.longest_path(p, 10 ** 6) for p in cbs.values()] + [0]))])
         B = min(Bcap, complete) if T else max(1, min(Bcap, thx.longest_path(main, 10 ** 6)))
+        if not firing:
+            B = max(1, min(Bcap, thx.longest_path(main, 10 ** 6)))
+            complete = B
         res["bounds"] = {"progress_type": ptype, "updates_u": u, "timer_objects_T": T, "steps_B": B,
                          "B_covers_all_schedules_with_T_timers": bool(B >= complete), "schedule_class": klass,
                          "tracked_attributes": attrs, "locks": dict(low.ci.locks), "caller_events": len(main.events()),
@@ -341,7 +377,9 @@ def run_h1(job):
         res["bounds"]["timer_construction_sites"] = nnew
         if low.mismatch:
             return res
-        bm = thx.Bmc(main, cbs, finit, low.ci.locks, T, B, firing=True)
+        res["bounds"].update({"timers_fire": firing, "calls_that_may_raise": faults or "none", "fault_events_of_the_caller": sum(1 for i in main.code if i.op == "fault"),
+                              "caller_shape": "enter(); try: update()^u finally: exit()" if faults else "enter(); update()^u; exit()"})
+        bm = thx.Bmc(main, cbs, finit, low.ci.locks, T, B, firing=firing, fault_any=faults)
         s = bm.build(job["timeout_s"])
         res["states"] = B + 1
         res["transitions"] = bm.transitions
@@ -349,36 +387,44 @@ def run_h1(job):
         seg = [x for x in main.segs if x[0] == "exit"]
         # reachability twin: the caller can finish, and (bar) a re-arming callback can run to completion before that
         tw = [bm.reach_end()]
-        if T:
+        nfs = sum(1 for i in main.code if i.op == "fault")
+        if faults and nfs:
+            tw.append(z3.Or(*[z3.And(bm.S[k]["flt"], bm.S[k]["mpc"] == bm.P(thx.ABORT), (bm.S[k]["nxt"] > 1) if T else z3.BoolVal(True)) for k in range(B + 1)]))
+        elif T:
             tw.append(z3.Or(*[z3.And(bm.S[k]["ts"][i] == thx.DONE, bm.S[k]["nxt"] > (2 if ptype == "bar" else 0)) for k in range(B + 1) for i in range(T)]))
         r, _, dt = _check(s, tw, job["timeout_s"])
         res["solver_s"] += dt
-        res["twins"].append({"twin": "caller completes" + (" and a callback thread ran to its end after re-arming" if T else ""), "result": r})
+        res["twins"].append({"twin": ("a call inside update()/exit() raises after two timers were created and the exception leaves the caller"
+                                      if faults else "caller completes" + (" and a callback thread ran to its end after re-arming" if T else "")), "result": r})
         if r != "sat":
             res["errors"].append("reachability twin not sat (%s): bound too small or model wrong" % r)
-        side = [bm.any_violation()]
+        side = [bm.any_violation(True if faults else None)]
         if klass == "A":
             side.append(bm.overlap(seg[0]))
         elif klass == "B":
             side.append(z3.Not(bm.overlap(seg[0])))
         r, m, dt = _check(s, side, job["timeout_s"])
         res["solver_s"] += dt
-        q = {"label": "no WAITING timer once the caller has left and no callback runs [%s]" % klass, "result": r, "s": round(dt, 2),
-             "trivial": False, "hash": _qhash("H1", ptype, u, T, B, klass, [repr(i) for i in main.code])}
+        q = {"label": ("no WAITING timer once an exception raised by a print/format/write call of the progress methods has left the caller [%s]"
+                       if faults else "no WAITING timer once the caller has left and no callback runs [%s]") % klass, "result": r, "s": round(dt, 2),
+             "trivial": False, "hash": _qhash("H1", ptype, u, T, B, klass, faults, firing, [repr(i) for i in main.code])}
         res["queries"].append(q)
         if r == "unknown":
             res["inconclusive"].append({"label": q["label"], "why": "solver unknown/timeout"})
         if r == "sat":
             sched, final = bm.schedule(m)
-            rr = thx_replay.replay_schedule(util, low.cls, attrs, list(low.ci.locks), h1_calls(u), sched, event_attrs=list(low.ci.events))
+            rr = thx_replay.replay_schedule(util, low.cls, attrs, list(low.ci.locks), h1_calls(u), sched, event_attrs=list(low.ci.events),
+                                            fault_codes=low.codes() if faults else None, guarded=bool(faults))
             res["replays"] += 1
-            info = {"model_final": final, "replay": {k: rr[k] for k in ("leaked", "threads", "bytes_after_exit", "rearmed", "desync", "thread_exceptions")},
-                    "schedule": ["%s:%s" % (x["thread"], x["op"]) for x in sched]}
+            info = {"model_final": final, "replay": {k: rr[k] for k in ("leaked", "threads", "bytes_after_exit", "rearmed", "desync", "thread_exceptions", "caller_exception")},
+                    "schedule": ["%s:%s%s" % (x["thread"], x["op"], ("!RAISES(%s in %s)" % (x.get("what"), (x.get("site") or ["?"])[0])) if x.get("raises") else "")
+                                 for x in sched if not (x["op"] == "fault" and not x.get("raises"))]}
             values = {"kind": "H1", "ptype": ptype, "u": u, "schedule": sched, "attrs": attrs, "locks": list(low.ci.locks),
-                      "events": list(low.ci.events), "cls": low.clsname, "selftest": job["kind"] == "S"}
+                      "events": list(low.ci.events), "cls": low.clsname, "selftest": job["kind"] == "S", "guarded": bool(faults)}
             if rr["leaked"] and not rr["desync"]:
                 q["replayed"] = True
-                res["violations"].append({"label": q["label"], "key": "%s/H1/%s/%s" % (PROP, ptype, H1_KEYS[klass]), "magnitude": float(len(rr["leaked"])),
+                vkey = "%s/H1f/%s/output-failure-leaves-timer" % (PROP, ptype) if faults else "%s/H1/%s/%s" % (PROP, ptype, H1_KEYS[klass])
+                res["violations"].append({"label": q["label"], "key": vkey, "magnitude": float(len(rr["leaked"])),
                                           "values": values, "found_by": "z3 model of the unrolled schedule, replayed with real threads: "
                                           "threading.enumerate() shows the surviving Timer (it wrote %d bytes after exit() and re-armed=%s)"
                                           % (rr["bytes_after_exit"], rr["rearmed"]), "info": info})
@@ -625,13 +671,25 @@ def jobs_for(tier):
         for b in h1_bounds(tier, ptype):
             for klass in (("A", "B") if ptype == "bar" else ("any",)):
                 jobs.append(dict(kind="H1", ptype=ptype, klass=klass, timeout_s=tmo, **b))
+    # H1f: calls without protocol meaning inside the progress methods (print, str.format, file.write/flush, ...) may raise
+    for ptype in ("bar", "simple", "silent"):
+        jobs.append(dict(kind="H1f", ptype=ptype, klass="any", u=2, T=4, Bcap=200, faults="caller", firing=False, timeout_s=tmo, tag="seq"))
+    # ... also interleaved with the timer callbacks (small bound: the search over "which call raises when" is expensive)
+    jobs.append(dict(kind="H1f", ptype="bar", klass="any", u=1, T=2, Bcap=40, faults="caller", firing=True, timeout_s=tmo, tag="conc"))
+    if tier != "quick":
+        jobs.append(dict(kind="H1f", ptype="bar", klass="any", u=1, T=3, Bcap=50, faults="all", firing=True, timeout_s=tmo, tag="conc-T3"))
     for qual, t, n in discover():
         jobs.append(dict(kind="H2", api=qual, target=t, nprog=n, timeout_s=tmo))
     for name, cls, expect in SELFTESTS:
         jobs.append(dict(kind="S", ptype="bar", klass="any", cls=cls, expect=expect, u=1, T=3, Bcap=48, timeout_s=tmo, selftest=name))
+    for name, cls, expect in SELFTESTS_F:
+        jobs.append(dict(kind="S", ptype="bar", klass="any", cls=cls, expect=expect, u=1, T=3, Bcap=200, timeout_s=tmo, selftest=name,
+                         faults="caller", firing=False))
     for j in jobs:
         if j["kind"] == "H1":
             j["id"] = h1_case_id(j["ptype"], j["u"], j["klass"])
+        elif j["kind"] == "H1f":
+            j["id"] = "H1f/%s/u%d/%s" % (j["ptype"], j["u"], j["tag"])
         elif j["kind"] == "S":
             j["id"] = "selftest/%s" % j["selftest"]
         else:
@@ -643,7 +701,7 @@ def _run_job(job):
     warnings.simplefilter("ignore")
     if os.environ.get("VF_VERBOSE"):
         print("[start] %s" % job["id"], file=sys.stderr, flush=True)
-    r = run_h1(job) if job["kind"] in ("H1", "S") else run_h2(job)
+    r = run_h1(job) if job["kind"] in ("H1", "H1f", "S") else run_h2(job)
     if os.environ.get("VF_VERBOSE"):
         print("[done ] %s %.1fs %s viol=%d err=%d inc=%d" % (job["id"], r.get("wall_s", 0), [q["result"] for q in r["queries"]],
               len(r["violations"]), len(r["errors"]), len(r["inconclusive"])), file=sys.stderr, flush=True)
@@ -711,7 +769,16 @@ class ReplayCase(Case):
         if v.get("kind") == "H1":
             mod = sys.modules[__name__] if v.get("selftest") else util
             cls = getattr(mod, v.get("cls") or PTYPES[v["ptype"]])
-            rr = thx_replay.replay_schedule(mod, cls, v["attrs"], v["locks"], h1_calls(int(v["u"])), v["schedule"], event_attrs=v.get("events", ()))
+            codes = None
+            if v.get("guarded"):
+                import inspect
+                codes = {}
+                for nm in dir(cls):
+                    f = inspect.getattr_static(cls, nm, None)
+                    if inspect.isfunction(f):
+                        codes[nm] = f.__code__
+            rr = thx_replay.replay_schedule(mod, cls, v["attrs"], v["locks"], h1_calls(int(v["u"])), v["schedule"], event_attrs=v.get("events", ()),
+                                            fault_codes=codes, guarded=bool(v.get("guarded")))
             print("replay: leaked timers %s threads %s desync %s" % (rr["leaked"], rr["threads"], rr["desync"]))
             return [Ob.holds("no timer survives the schedule", not rr["leaked"])]
         fn = dict(thx.discover_apis(oqupy))[v["api"]]
